@@ -160,6 +160,32 @@ func verifC15(extended bool) {
 				}
 			}
 			verifrt.Assert(verifSameStrings(it, wantValid), label+": IterateValidIds yields exactly the entities with child data")
+			// a sorted query through the child store (sorting scanner): first of the
+			// child entities by name, count = number of child entities
+			sids, scount, err := mgr.QueryIds(tx, "true sort by name limit 1")
+			verifrt.Assert(err == nil && scount == int64(len(wantChildIds)), label+": sorted child-store query counts exactly the child entities")
+			if len(wantChildIds) == 0 {
+				verifrt.Assert(len(sids) == 0, label+": sorted child-store query is empty without child entities")
+			} else {
+				okFirst := len(sids) == 1
+				if okFirst {
+					for i, s := range sl {
+						isChild := s.kind == 2 || (extended && s.kind == 1)
+						if !isChild {
+							okFirst = okFirst && sids[0] != vIds[i]
+							continue
+						}
+						for k, o := range sl {
+							oChild := o.kind == 2 || (extended && o.kind == 1)
+							if k != i && oChild {
+								// the returned entity has the smallest name
+								okFirst = verifrt.And(okFirst, verifrt.Or(sids[0] != vIds[i], s.name < o.name))
+							}
+						}
+					}
+				}
+				verifrt.Assert(okFirst, label+": sorted child-store query pages over child entities only")
+			}
 			pids, pcount, err := env.emp.QueryIds(tx, "true")
 			verifrt.Assert(err == nil && verifSameStrings(pids, wantAllIds) && pcount == int64(len(wantAllIds)), label+": parent store query returns every entity")
 		})
@@ -182,15 +208,15 @@ func verifC15(extended bool) {
 	}
 	switch op {
 	case 0, 1: // create through parent / child
-		name := verifrt.String("newname", 1)
+		name := verifrt.StringUpTo("newname", 1)
 		lead := verifrt.Bool("newlead")
 		if slots[j].kind != 0 {
 			if op == 1 && slots[j].kind == 1 {
 				verifrt.Outside("create through the child store of an id that exists as a plain parent entity (not constrained)")
 			}
 			accept = false
-		} else if nameTaken(name) {
-			accept = false
+		} else if len(name) == 0 || nameTaken(name) {
+			accept = false // the parent's non-nullable unique index applies to both stores
 		} else if op == 0 {
 			next[j] = vPCSlot{kind: 1, name: name}
 		} else {
@@ -203,14 +229,14 @@ func verifC15(extended bool) {
 			return mgr.Create(ctx, mkMgr(vIds[j], name, lead))
 		})
 	case 2, 3: // update through parent / child
-		name := verifrt.String("newname", 1)
+		name := verifrt.StringUpTo("newname", 1)
 		lead := verifrt.Bool("newlead")
 		switch {
 		case slots[j].kind == 0:
 			accept = false
 		case op == 3 && slots[j].kind == 1:
 			accept = false // no child data: not an entity of the child store
-		case nameTaken(name):
+		case len(name) == 0 || nameTaken(name):
 			accept = false
 		default:
 			next[j].name = name
@@ -264,5 +290,5 @@ func VerifC15_PlainChildStore()    { verifC15(false) }
 func VerifC15_ExtendedChildStore() { verifC15(true) }
 
 func init() {
-	verifQueryFamilies = append(verifQueryFamilies, func() []string { return []string{"true"} })
+	verifQueryFamilies = append(verifQueryFamilies, func() []string { return []string{"true", "true sort by name limit 1"} })
 }
